@@ -124,6 +124,34 @@ func strconvUnquote(s string) (string, error) {
 
 // stmtOfExec resolves tx.StmtContext(ctx, s.stmts.X).Exec(...) / s.stmts.X.QueryRowContext(...)
 // to the statement field name X ("" if the call is not on a prepared statement).
+// callArgs lists the argument expressions of a call from position first on; a spread slice
+// (`f(xs...)`) whose only definition is a slice literal is expanded to the literal's elements
+// (what a variadic helper's parameter looks like once the helper is inlined). nil when the
+// arguments cannot be listed.
+func callArgs(g *Fn, call *ast.CallExpr, first int) []ast.Expr {
+	if !call.Ellipsis.IsValid() {
+		if first > len(call.Args) {
+			return nil
+		}
+		return call.Args[first:]
+	}
+	if len(call.Args) != first+1 {
+		return nil
+	}
+	last := ast.Unparen(call.Args[first])
+	if cl, ok := last.(*ast.CompositeLit); ok {
+		return cl.Elts
+	}
+	if v := g.varOf(last); v != nil {
+		if defs := g.defsOf(v); len(defs) == 1 && !defs[0].multi && defs[0].rhs != nil {
+			if cl, ok := ast.Unparen(defs[0].rhs).(*ast.CompositeLit); ok {
+				return cl.Elts
+			}
+		}
+	}
+	return nil
+}
+
 func stmtFieldOfCall(f *Fn, call *ast.CallExpr) string {
 	se, ok := ast.Unparen(call.Fun).(*ast.SelectorExpr)
 	if !ok {
